@@ -100,6 +100,15 @@ def rule_track(chk, rid, runs, what="tracking"):
                     for c in popped:
                         tri(chk, rid, cons + f"/pop({c})", prove_eq(st, Lin.sym(f"popped({c})") - x), run_, rec,
                             f"step removed from {c} minus the step moved")
+                    # containers that are pushed together must be popped together
+                    pushed = {cc for _, cc, op, _, _ in it.cops if op == "push"}
+                    for c in sorted(pushed - set(popped)):
+                        v = pend.get(c)
+                        if v == {"0"}:
+                            chk.decide(rid, cons + f"/pop({c})", False,
+                                       f"the moved step is removed from {popped} but stays recorded in {c}: the schedule "
+                                       "will name a checkpoint that no longer exists / report leftovers" + cfgs(run_),
+                                       rel=run_.rel, node=rec.node)
                 else:
                     definite = all(v == {"0"} for v in pend.values())
                     chk.decide(rid, cons + "/pop", False if definite else None,
